@@ -8,6 +8,7 @@ package vsched
 import (
 	"fmt"
 	"sync"
+	"sync/atomic"
 )
 
 // Point is one scheduling decision of an execution.
@@ -38,6 +39,7 @@ type Sched struct {
 	choose    Chooser
 	Trace     []Point
 	Deadlock  bool
+	Overrun   bool // MaxPoints exceeded (livelock guard)
 	abort     bool
 	finished  chan struct{}
 	MaxPoints int
@@ -47,15 +49,11 @@ type abortSentinel struct{}
 
 var (
 	mu     sync.Mutex
-	active *Sched
+	active atomic.Pointer[Sched]
 )
 
 // Cur returns the active scheduler or nil (pass-through mode).
-func Cur() *Sched {
-	mu.Lock()
-	defer mu.Unlock()
-	return active
-}
+func Cur() *Sched { return active.Load() }
 
 // Run executes bodies as threads 0..n-1 under the scheduler and returns the
 // finished execution. Panics in bodies (other than the abort sentinel) are
@@ -66,11 +64,11 @@ func Run(choose Chooser, bodies ...func()) *Sched {
 		s.threads = append(s.threads, &thread{id: i, wake: make(chan struct{}, 1)})
 	}
 	mu.Lock()
-	if active != nil {
+	if active.Load() != nil {
 		mu.Unlock()
 		panic("vsched: nested Run")
 	}
-	active = s
+	active.Store(s)
 	mu.Unlock()
 	var wg sync.WaitGroup
 	for i, b := range bodies {
@@ -97,9 +95,7 @@ func Run(choose Chooser, bodies ...func()) *Sched {
 	s.switchFrom(-1, "start")
 	<-s.finished
 	wg.Wait()
-	mu.Lock()
-	active = nil
-	mu.Unlock()
+	active.Store(nil)
 	return s
 }
 
@@ -145,10 +141,11 @@ func (s *Sched) switchFrom(running int, op string) {
 		if !all {
 			s.Deadlock = true
 			s.abort = true
-			s.wakeAllForAbort()
 			if running >= 0 {
+				// unwind this thread; its exit path wakes the next parked thread
 				panic(abortSentinel{})
 			}
+			s.wakeAllForAbort()
 			return
 		}
 		close(s.finished)
@@ -166,10 +163,11 @@ func (s *Sched) switchFrom(running int, op string) {
 	s.Trace = append(s.Trace, p)
 	if len(s.Trace) > s.MaxPoints {
 		s.abort = true
-		s.wakeAllForAbort()
+		s.Overrun = true
 		if running >= 0 {
 			panic(abortSentinel{})
 		}
+		s.wakeAllForAbort()
 		return
 	}
 	next := en[idx]
